@@ -38,6 +38,8 @@ let parse_cat s : cat =
 let parse_op cat s : op * bool =
   let probe = s.[String.length s - 1] = '!' in
   let s = if probe then String.sub s 0 (String.length s - 1) else s in
+  (* '~': the backend's reflection stream ends with an error status after the answers -- the same operation *)
+  let s = if s.[String.length s - 1] = '~' then String.sub s 0 (String.length s - 1) else s in
   let rest = String.sub s 1 (String.length s - 1) in
   let two () = match String.split_on_char '.' rest with [a; b] -> (int_of_string a, int_of_string b) | _ -> failwith "op" in
   (match s.[0] with
